@@ -21,8 +21,10 @@
 (* asserted).  A response shape is (type, status, result count relative to *)
 (* the request, Variant class, extras).  TLC enumerates Ops x Shapes, one  *)
 (* run per pair; the contract (all guards present) never panics and always *)
-(* returns; the deviation sets name the operations whose guard is missing  *)
-(* in the code (as-is model), for which TLC finds the panicking shapes.    *)
+(* returns; the deviation sets name operations whose guard is missing:     *)
+(* with the sets the code had before commit aacaf02 (ClientOp_dev_*.cfg)    *)
+(* TLC finds exactly the 46 panicking pairs the real client showed; since  *)
+(* that repair the as-is model is the contract (both sets empty).          *)
 (* Every initial state is one replay case for the real client against a    *)
 (* scripted server.                                                        *)
 (***************************************************************************)
@@ -134,9 +136,13 @@ TypeCheck == /\ pc = "typecheck"
                 THEN pc' = "done" /\ out' = IF op.bg THEN "value" ELSE "error"   \* msg.Err takes precedence; safeAssign error otherwise
                 ELSE pc' = "lenguard" /\ out' = out
              /\ UNCHANGED <<op, sh, err>>
+\* operations whose guard skips what is missing instead of failing (the raw response goes to the caller)
+Soft == {"sub.Monitor", "sub.ModifyMonitoredItems", "monitor.Subscribe", "monitor.AddMonitorItems",
+         "monitor.ModifyMonitorItems"}
 LenGuard  == /\ pc = "lenguard"
              /\ IF op.idx # "none" /\ op.name \notin Dev_NoLenGuard /\ Short
-                THEN pc' = "done" /\ out' = "error"
+                THEN IF op.name \in Soft THEN pc' = "typeguard" /\ out' = out
+                                        ELSE pc' = "done" /\ out' = "error"
                 ELSE pc' = "index" /\ out' = out
              /\ UNCHANGED <<op, sh, err>>
 Index     == /\ pc = "index"
@@ -169,7 +175,8 @@ Expected(o, s) ==
                       [] o.idx = "all"   -> s.count < o.n
                       [] o.idx = "each"  -> s.count > o.n
                       [] OTHER           -> FALSE
-       IN IF o.idx # "none" /\ short THEN (IF o.name \in Dev_NoLenGuard THEN "panic" ELSE "error")
+       IN IF o.idx # "none" /\ short /\ o.name \in Dev_NoLenGuard THEN "panic"
+          ELSE IF o.idx # "none" /\ short /\ o.name \notin Soft THEN "error"
           ELSE IF o.val /\ s.ist = "good" /\ s.vt # "expected"
                THEN (IF o.name \in Dev_NoTypeGuard THEN "panic" ELSE "error")
           ELSE Outcome(o, s)
